@@ -119,6 +119,19 @@ example : allWf [.int, .int, .int, .int, .int, .int, .int, .dbl, .blk 1 16] = tr
     ∧ allWf [.int, .dbl, .blk 1 16, .int, .blk 3 16, .int, .int, .blk 2 8, .ld, .int, .blk 0 24, .blk 4 12] = true := by
   decide
 
+/-! ## 4b. Result registers -/
+
+/-- For every result list the specification defines (any order and mix of at most two INTEGER, two
+SSE and two X87 results) generated code (`MIR_RET` lowering) and the interpreter shim both put the
+n-th result of each class into the register the specification names: rax, rdx / xmm0, xmm1 / st0, st1. -/
+theorem ret_meets_spec (rs : List RTy) (locs : List RetLoc)
+    (h : retWalk retSpecStep ⟨0, 0, 0⟩ rs = some locs) :
+    retWalk retGenStep ⟨0, 0, 0⟩ rs = some locs ∧ retWalk retShimStep ⟨0, 0, 0⟩ rs = some locs :=
+  retWalk_of_spec rs ⟨0, 0, 0⟩ locs h
+
+example : retWalk retSpecStep ⟨0, 0, 0⟩ [.sse, .sse, .int, .x87, .int, .x87]
+    = some [.xmm0, .xmm1, .rax, .st0, .rdx, .st1] := by decide
+
 /-! ## 5. Frame (`target_make_prolog_epilog`) -/
 
 /-- entry `rsp ≡ 8 (mod 16)` ⇒ `rsp ≡ 0 (mod 16)` after the prologue, in both frame shapes, with and
